@@ -26,14 +26,27 @@ def _on_alarm(*a):
     raise _Alarm()
 
 
+def _arm():
+    # the limit counts the CPU time of this process, so that a loaded machine does not turn slow cases into hangs
+    # (a bare `except:` in the package loader would even turn the alarm into exit code 1); wall clock is only a backstop
+    signal.signal(signal.SIGPROF, _on_alarm)
+    signal.signal(signal.SIGALRM, _on_alarm)
+    signal.setitimer(signal.ITIMER_PROF, CASE_TIMEOUT)
+    signal.setitimer(signal.ITIMER_REAL, CASE_TIMEOUT * 40)
+
+
+def _disarm():
+    signal.setitimer(signal.ITIMER_PROF, 0)
+    signal.setitimer(signal.ITIMER_REAL, 0)
+
+
 def call_tex2txt(src, opts=None, ml=False, thresh=None):
     """-> dict(outcome, plain/map or parts, stderr). outcome: returned | exception:<T>@file:line | exit:<code> | hang"""
     from yalafi import tex2txt
     opts = dict(opts or {})
     err = io.StringIO()
     out = {'outcome': 'returned', 'stderr': ''}
-    signal.signal(signal.SIGALRM, _on_alarm)
-    signal.setitimer(signal.ITIMER_REAL, CASE_TIMEOUT)
+    _arm()
     try:
         with contextlib.redirect_stderr(err):
             o = tex2txt.Options(**opts)
@@ -42,7 +55,7 @@ def call_tex2txt(src, opts=None, ml=False, thresh=None):
                 def mod(parms):
                     parms.ml_continue_thresh = thresh
             r = tex2txt.tex2txt(src, o, multi_language=ml, modify_parms=mod)
-        signal.setitimer(signal.ITIMER_REAL, 0)
+        _disarm()
         if ml:
             out['parts'] = [{'lang': lang, 'plain': chars.enc(p[0]), 'map': list(p[1])}
                             for lang in r for p in r[lang]]
@@ -52,19 +65,19 @@ def call_tex2txt(src, opts=None, ml=False, thresh=None):
     except _Alarm:
         out['outcome'] = 'hang'
     except SystemExit as e:
-        signal.setitimer(signal.ITIMER_REAL, 0)
+        _disarm()
         out['outcome'] = 'exit:%s' % (e.code,)
     except RecursionError:
-        signal.setitimer(signal.ITIMER_REAL, 0)
+        _disarm()
         out['outcome'] = 'exception:RecursionError'
     except BaseException as e:  # noqa
-        signal.setitimer(signal.ITIMER_REAL, 0)
+        _disarm()
         tb = traceback.extract_tb(e.__traceback__)
         last = tb[-1] if tb else None
         where = '%s:%s' % (os.path.basename(last.filename), last.lineno) if last else '?'
         out['outcome'] = 'exception:%s@%s' % (type(e).__name__, where)
     finally:
-        signal.setitimer(signal.ITIMER_REAL, 0)
+        _disarm()
     out['stderr'] = err.getvalue()
     return out
 
